@@ -1,6 +1,6 @@
 SPECIFICATION Spec
 CONSTANT MaxReq = 3
-CONSTANT Depth = 12
+CONSTANT Depth = 10
 CONSTRAINT Bound
 VIEW View
 INVARIANT OneAtATime
